@@ -393,7 +393,8 @@ def complex_segment_stream(ctx, n, prefix="C16"):
             continue
         if prefix == "C18" and dim == 2:
             # a line through the point of parameter x (and a point off the supporting line): the point is returned iff 0 <= x <= 1
-            off = a + np.array([1.0, 2.0]) + 0.5 * d * 1j
+            # a point OFF the (complex) supporting line: a + n + (i/2) d with n = (-d_y, d_x), independent of d because d.d != 0
+            off = a + np.array([-d[1], d[0]]) + 0.5 * d * 1j
             for x in (0.5, 1.5):
                 p = a + x * d
                 L = call_impl(lambda: g.Line(g.Point(*p), g.Point(*off)))
